@@ -2,7 +2,7 @@
 Unary mappings over the complete bipartite graph (`new_mapping`): identifier arithmetic
 (bounds, injectivity, decoding) and the meaning of the four `force_*_mapping` generators.
 -/
-import Lemmas.FamBasic
+import Lemmas.C01Basic
 namespace Cnfgen.Fam
 open Cnfgen
 
@@ -89,7 +89,7 @@ theorem atMostOne_row (f : UMap) (hs : 0 < f.start) (α : Assign) (u : Nat) :
         α (f.var u v) = true → α (f.var u v') = true → v = v' := by
   simp only [Con.holds, Op.denote, decide_eq_true_eq]
   rw [row_eq, count_map_natCast α _ _ (fun v _ => f.var_pos hs u v)]
-  have := countP_le_one_iff (idx f.rng) (fun v => α (f.var u v)) (idx_nodup _)
+  have := countP_le_one_iff_nodup (idx f.rng) (fun v => α (f.var u v)) (idx_nodup _)
   simp only [mem_idx] at this
   constructor
   · intro h v h1 h2 v' h1' h2' a a'
@@ -104,7 +104,7 @@ theorem atMostOne_col (f : UMap) (hs : 0 < f.start) (α : Assign) (v : Nat) :
         α (f.var u v) = true → α (f.var u' v) = true → u = u' := by
   simp only [Con.holds, Op.denote, decide_eq_true_eq]
   rw [col_eq, count_map_natCast α _ _ (fun u _ => f.var_pos hs u v)]
-  have := countP_le_one_iff (idx f.dom) (fun u => α (f.var u v)) (idx_nodup _)
+  have := countP_le_one_iff_nodup (idx f.dom) (fun u => α (f.var u v)) (idx_nodup _)
   simp only [mem_idx] at this
   constructor
   · intro h u h1 h2 u' h1' h2' a a'
